@@ -372,6 +372,27 @@ MUTANTS = [
       "(\"open=\" ++ hex e)",
       ["C16"], "wire layer: the `open=` token repeats the existing content given on the line instead of openFile's disk"),
 
+    # ---- LogTable (C16, the logger's field table)
+    M("logt-center-pad-swapped", "LogTable", "QModel/LogTable.lean",
+      "| .center => spaces (n / 2) ++ s ++ spaces (n - n / 2)",
+      "| .center => spaces (n - n / 2) ++ s ++ spaces (n / 2)",
+      ["C16"], "`^` alignment puts the odd blank on the left"),
+    M("logt-readd-moves-to-end", "LogTable", "QModel/LogTable.lean",
+      "| g :: r => if g.key = f.key then f :: r else g :: upsert f r",
+      "| g :: r => if g.key = f.key then r ++ [f] else g :: upsert f r",
+      ["C16"], "a field added again under its name moves to the end of the table"),
+    M("logt-auto-header-default-width", "LogTable", "QModel/LogTable.lean",
+      "some (sp.width.getD 10), .str⟩",
+      "some (sp.width.getD 12), .str⟩",
+      ["C16"], "get_auto_header_format: a placeholder without width is headed 12 wide"),
+    M("logt-array-header-not-filled", "LogTable", "QModel/LogTable.lean",
+      "List.replicate (holes f.headerFormat - f.key.names.length) []",
+      "List.replicate 0 []",
+      ["C16"], "an array field with fewer names than columns is not filled up with blanks (IndexError)"),
+    M("logt-remove-matches-whole-name", "LogTable", "QModel/LogTable.lean",
+      "!f.key.names.any (containsStr p)",
+      "!f.key.names.any (· == p)",
+      ["C16"], "remove_fields removes only fields named exactly like the pattern"),
     # ---- Algebra (C17)
     M("alg-leaf-plus-composite-appends", "Algebra", "QModel/Algebra.lean",
       "if (kind a).cmt = t then .comp (kind a).cmt (a :: ms) else .comp .plain (a :: ms)",
